@@ -557,6 +557,59 @@ pub fn run_c15(ctx: &mut Ctx) {
             ctx.count("many-peers-histories");
         }
     }
+    // every special source address (wildcards, port 0, multicast, broadcast, loopback, link-local,
+    // IPv4-mapped, all-ones ...) through each accept path and each drop path
+    if ctx.shard % 4 == 0 {
+        for s in 8u8..32 {
+            for variant in 0..6 {
+                let mut ops = vec![];
+                match variant {
+                    0 => ops.push(Op::Incoming { request: true, tid: 1, from: s }),
+                    1 => ops.push(Op::Incoming { request: false, tid: 2, from: s }),
+                    2 => {
+                        ops.push(req(3, s, Sealing::None, 2));
+                        ops.push(Op::Response { tid: 3, from: s, error: false, seal: RespSeal::Unsigned, fp: true });
+                    }
+                    3 => {
+                        ops.push(req(3, s, Sealing::Sha1, 4));
+                        ops.push(Op::Response { tid: 3, from: s, error: true, seal: RespSeal::Sha1(0), fp: false });
+                    }
+                    4 => {
+                        // dropped: nothing outstanding / wrong key
+                        ops.push(Op::Response { tid: 5, from: s, error: false, seal: RespSeal::Unsigned, fp: false });
+                        ops.push(req(3, 0, Sealing::Sha1, 4));
+                        ops.push(Op::Response { tid: 3, from: s, error: false, seal: RespSeal::Sha1(2), fp: false });
+                    }
+                    _ => ops.push(Op::IncomingSigned { request: true, tid: 1, from: s, cred: 0, good: true }),
+                }
+                ops.push(Op::Poll(PollAt::AtWait));
+                ops.push(Op::Incoming { request: false, tid: 6, from: (s % 8) });
+                for tcp in [false, true] {
+                    let h = History { tcp, remote0: Some(0), remote_addr: None, ops: ops.clone() };
+                    run_plain(ctx, &h);
+                    ctx.count("special-source-address-histories");
+                }
+            }
+        }
+    }
+    // very many accepted messages from one address (beyond any 8- or 16-bit count): still validated
+    if ctx.shard % 8 == 1 || !quick {
+        let mut rng = ctx.rng("flood", 0);
+        for count in [255u32, 256, 257, 65_535, 65_536, 65_537, 70_000] {
+            let from = rng.below(NCORE as u64) as u8;
+            let ops = vec![
+                Op::Incoming { request: true, tid: 0, from: ((from + 1) % NCORE as u8) },
+                Op::IncomingFlood { from, count },
+                Op::Poll(PollAt::AtWait),
+                Op::Incoming { request: false, tid: 1, from },
+            ];
+            let h = History { tcp: rng.chance(1, 2), remote0: None, remote_addr: None, ops };
+            run_plain(ctx, &h);
+            ctx.count("flood-histories");
+        }
+    }
+    ctx.require("flood-histories", 7);
+    ctx.require("special-source-address-histories", 200);
     ctx.require("many-peers-histories", 100);
     ctx.require("incoming-accepted", 2_000);
     ctx.require("completed-delivered", 1_000);
